@@ -459,4 +459,50 @@ pub fn run_c03<C: NatCtx>(v: &mut Env<C>) {
             honest(v, &s, nn, &perm, &label, k + j, j, true);
         }
     }
+    // ---- SEQUENCES over reused buffers: successive batches written IN PLACE into the same two vectors (a mixer
+    // processing batch after batch); every proof must be accepted by an independent verifier: other buffers,
+    // another thread.  (The library has no state today; this is what a stale memoisation would break.)
+    {
+        let ctx = v.ctx.clone();
+        let tok = v.tok.clone();
+        for nn in if quick { vec![3usize] } else { vec![1, 3, 8] } {
+            let s = setup(v, &sk, nn, b"reuse");
+            let sh = Shuffler::new(&s.pk, &s.gens, &ctx);
+            let mut es: Vec<Ciphertext<C>> = make_cts(v, &s, nn, 0);
+            let mut eps: Vec<Ciphertext<C>> = es.clone();
+            for round in 0..(if quick { 3 } else { 5 }) {
+                let fresh = make_cts(v, &s, nn, round + 1);
+                for i in 0..nn {
+                    es[i] = fresh[i].clone(); // in place: same allocation, same length
+                }
+                strand::verif_hooks::load_exp_tape(vec![]);
+                let (outs, rs, perm) = sh.gen_shuffle(&es);
+                for i in 0..nn {
+                    eps[i] = outs[i].clone();
+                }
+                let label = v.label(round);
+                let pf = match sh.gen_proof(&es, &eps, &rs, &perm, &label) {
+                    Ok(p) => p,
+                    Err(_) => {
+                        v.h.check(false, || format!("gen_proof failed in a sequence on {}", tok));
+                        continue;
+                    }
+                };
+                // the same buffers, this thread
+                let same = sh.check_proof(&pf, &es, &eps, &label).unwrap_or(false);
+                // other buffers, another thread (everything through bytes)
+                let (pb, esb, epb) = (pf.strand_serialize().unwrap(), strand::serialization::StrandVectorC(es.clone()).strand_serialize().unwrap(), strand::serialization::StrandVectorC(eps.clone()).strand_serialize().unwrap());
+                let (pk2, gens2, ctx2, label2) = (PublicKey::from_element(strand::verif_hooks::pk_element(&s.pk), &ctx), s.gens.clone(), ctx.clone(), label.clone());
+                let other = std::thread::spawn(move || -> bool {
+                    let pf2 = ShuffleProof::<C>::strand_deserialize(&pb).unwrap();
+                    let es2 = strand::serialization::StrandVectorC::<C>::strand_deserialize(&esb).unwrap().0;
+                    let ep2 = strand::serialization::StrandVectorC::<C>::strand_deserialize(&epb).unwrap().0;
+                    Shuffler::new(&pk2, &gens2, &ctx2).check_proof(&pf2, &es2, &ep2, &label2).unwrap_or(false)
+                })
+                .join()
+                .unwrap_or(false);
+                v.h.check(same && other, || format!("batch {} of a sequence of honest shuffles over reused buffers: proof accepted over the prover's own buffers: {}, by an independent verifier (fresh buffers, other thread): {} on {} N={}", round + 1, same, other, tok, nn));
+            }
+        }
+    }
 }
